@@ -251,6 +251,10 @@ fn index_items(items: &[syn::Item], prefix: &str, out: &mut Vec<Value>) {
                     "start":item_start(&c.attrs, c.span()).min(a),"end":b,"text":toks(&*c.expr),
                     "ty":toks(&*c.ty),"expr_span":sp_of(&*c.expr)}));
             }
+            syn::Item::Static(st) => {
+                let (a, b) = range_of(st);
+                out.push(json!({"kind":"static","path":format!("{}{}", prefix, st.ident),"start":a,"end":b,"ty":toks(&*st.ty)}));
+            }
             syn::Item::Macro(m) => {
                 let its = cfg_if_items(&m.mac);
                 if !its.is_empty() {
@@ -305,6 +309,8 @@ fn stmt_json(s: &syn::Stmt) -> Value {
             "item": match i {
                 syn::Item::Const(c) => json!({"kind":"const","name":c.ident.to_string(),"ty":toks(&*c.ty),"expr":expr_json(&c.expr)}),
                 syn::Item::Use(_) => json!({"kind":"use"}),
+                syn::Item::Type(_) => json!({"kind":"type"}),
+                syn::Item::Static(st) => json!({"kind":"static","name":st.ident.to_string(),"ty":toks(&*st.ty)}),
                 _ => json!({"kind":"other"}),
             }}),
         syn::Stmt::Macro(m) => {
